@@ -8,7 +8,7 @@ shutil.copy(f"/tmp/cs/{prop}{label}.patch" if os.path.exists(f"/tmp/cs/{prop}{la
 try: agent = json.load(open(f"{src}/meta.json"))
 except Exception: agent = {}
 rd = lambda f: open(f).read().strip() if os.path.exists(f) else ""
-meta = {"property": prop, "origin": "independent sub-agent (rounds 2-8: two changes per property (from round 5 on with a list of already-used sites to avoid)) given only the property text and a scratch worktree",
+meta = {"property": prop, "origin": "independent sub-agent (rounds 2-9: two changes per property (from round 5 on with a list of already-used sites to avoid)) given only the property text and a scratch worktree",
  "summary": agent.get("summary", ""), "needs": agent.get("needs", ""), "files": agent.get("files", []),
  "demo": f"copy demo.rs to tests/seeded_{prop}.rs in a worktree of /repo; cargo test --offline --features verif --test seeded_{prop}",
  "confirmed_by_me": {"how": "tools/confirm_seed2.sh: fresh scratch worktree of /repo HEAD, demo without and with patch.diff, then the stable baseline (guard off, private network namespace) with the patch",
